@@ -290,6 +290,22 @@ public:
         return _weight;
     }
 
+#ifdef PARMCB_VERIF
+    // read-only accessors for verification harnesses
+    const Graph& verif_spanner() const {
+        return _spanner;
+    }
+    const std::vector<Edge>& verif_non_spanner_edges() const {
+        return _non_spanner_edges;
+    }
+    const std::map<Edge, Edge>& verif_edge_spanner_to_g() const {
+        return _edge_spanner_to_g;
+    }
+    const std::vector<Vertex>& verif_vertex_g_to_spanner() const {
+        return _vertex_g_to_spanner_vec;
+    }
+#endif
+
 private:
     // graph
     const Graph &_g;
